@@ -276,7 +276,7 @@ func runStr(sw *shardWriter, j *jb, input []byte, dstSlack int, st *genStats) {
 	orig := append([]byte{}, input...)
 	panics := 0
 	var es []strEntry
-	fresh := func() []byte { return relayout(input) }
+	fresh := func() []byte { return relayoutCopy(input) }
 	// 1..3 ReadString with nil / dirty / tiny scratch; later overwrite of input and scratch
 	// (7..9: a pointer to a nil slice - the idiomatic `var scratch []byte` -, an empty non-nil one, an empty roomy one)
 	for ki, mk := range []func() *[]byte{
